@@ -30,7 +30,9 @@ Record idpcfg := {
 (* SP metadata as held by the ServiceProviderProvider                          *)
 Record endpoint := { ep_binding : string; ep_location : string; ep_index : Z; ep_default : option bool }.
 Record keydesc  := { kd_use : string; kd_certs : list string }.      (* X509Certificate/Data strings *)
-Record reqattr  := { ra_friendly : string; ra_name : string; ra_format : string }.
+(* ra_values: the texts of the AttributeValue children the SP put into the metadata's
+   RequestedAttribute ("the values requested"); the IdP must not echo them *)
+Record reqattr  := { ra_friendly : string; ra_name : string; ra_format : string; ra_values : list string }.
 Record attrsvc  := { as_default : option bool; as_requested : list reqattr }.
 Record spsso    := { acs : list endpoint; kds : list keydesc; attr_services : list attrsvc }.
 Record spmeta   := { md_entity : string; descriptors : list spsso }.
